@@ -530,16 +530,31 @@ func init() {
 // seconds since year 1.
 func (p *pathCtx) timeNow() value {
 	ts := p.ts
+	const base = 63800000000 // seconds since year 1, roughly 2022
+	if step, ok := p.ex.cfg.Params["CLOCKSTEP"]; ok && step == 0 {
+		// harness-controlled time: one symbolic origin, advanced only by verifrt.Advance
+		if p.clockOrigin == nil {
+			p.clock++
+			name := fmt.Sprintf("clock!%d", p.clock)
+			v := ts.Var(name, 32)
+			p.clockOrigin = ts.BvBin(OpBvAdd, ts.Zext(v, 32), ts.BV(base, 64))
+			p.nondets = append(p.nondets, nondetRec{Name: name, Kind: "env", Term: ts.Zext(v, 32)})
+		}
+		cur := p.clockOrigin
+		if p.clockOffset != nil {
+			cur = ts.BvBin(OpBvAdd, cur, p.clockOffset)
+		}
+		return structure{uint64(0), p.mkInt(cur, types.Int64), (*value)(nil)}
+	}
 	p.clock++
 	name := fmt.Sprintf("clock!%d", p.clock)
 	// 32-bit offset above a fixed base keeps the arithmetic away from overflow corners
 	v := ts.Var(name, 32)
-	const base = 63800000000 // seconds since year 1, roughly 2022
 	cur := ts.BvBin(OpBvAdd, ts.Zext(v, 32), ts.BV(base, 64))
 	if p.lastClock != nil {
 		p.assumeQuiet(ts.Cmp(OpBvUle, p.lastClock, cur))
 		if step, ok := p.ex.cfg.Params["CLOCKSTEP"]; ok {
-			// bounded time between two consecutive clock readings (CLOCKSTEP=0: a run faster than the clock's resolution)
+			// bounded time between two consecutive clock readings
 			p.assumeQuiet(ts.Cmp(OpBvUle, cur, ts.BvBin(OpBvAdd, p.lastClock, ts.BV(uint64(step), 64))))
 		}
 	}
